@@ -53,7 +53,7 @@ func runC13(p *Prog, r *Report) {
 		for h := range LoopHeaders(fn) {
 			for b := range loopBlocks(h) {
 				for _, in := range b.Instrs {
-					if c, ok := in.(*ssa.Call); ok && calleeName(&c.Call) == "UnmarshalJSON" {
+					if c, ok := in.(*ssa.Call); ok && isDecodeCall(&c.Call) {
 						inLoop = true
 					}
 				}
@@ -214,7 +214,7 @@ func checkFileGenerator(p *Prog, r *Report, fn *ssa.Function) {
 				scanEv = e
 			case cf == "(*bufio.Scanner).Err":
 				errEv = e
-			case strings.HasSuffix(cf, ".UnmarshalJSON"):
+			case isDecodeCall(e.Call):
 				decEv = e
 			case cf == "net.ParseIP":
 				parseEv = e
@@ -382,10 +382,10 @@ func checkStaleDecodeTarget(p *Prog, r *Report, fn *ssa.Function) {
 	for _, b := range fn.Blocks {
 		for _, in := range b.Instrs {
 			c, ok := in.(*ssa.Call)
-			if !ok || !strings.HasSuffix(calleeFull(&c.Call), ".UnmarshalJSON") || len(c.Call.Args) == 0 {
+			if !ok || !isDecodeCall(&c.Call) {
 				continue
 			}
-			target, ok := c.Call.Args[0].(*ssa.Alloc)
+			target, ok := decodeTarget(&c.Call).(*ssa.Alloc)
 			if !ok {
 				continue
 			}
